@@ -146,8 +146,10 @@ Record mfile := mkFile {
 }.
 
 (* what one call of Worker.decompress for a member does: hands out chunks and
-   returns, or the decoder raises, or the folder-level check (packed stream consumed and
-   the whole folder delivered) raises CrcError(crc, digest, None) *)
+   returns, or the decoder raises (this includes Bad7zFile "unexpected end of compressed
+   stream" when the decoder stalls before the declared size, commit 2499498), or the
+   folder-level check (packed stream consumed and the whole folder delivered) raises
+   CrcError(crc, digest, None) *)
 Inductive dres := DOk (chunks : list bytes) | DErr (e : err) | DFolderCrc.
 
 (* CrcError(expected, actual, filename) -- filename None for the folder level *)
